@@ -46,6 +46,15 @@ def roundtrip_fails(h) -> list[Fail]:
 
     f: list[Fail] = []
     o1 = store.obs(h)
+    dead = sorted({x for (a, _, b, _) in o1[1] for x in (a, b) if x not in o1[0]} | {c for v in o1[0].values() for c in v[2] if c not in o1[0]})
+    if dead:
+        return [Fail("obs", "store-names-dead-nodes", f"links() / children() of the HUGR before the round trip name the dead nodes {dead[:5]}")]
+    if any(len(set(v[2])) != len(v[2]) for v in o1[0].values()):
+        return [Fail("obs", "store-lists-a-child-twice", f"{[v[2] for v in o1[0].values() if len(set(v[2])) != len(v[2])][:2]}")]
+    try:
+        pl1 = store.rename_links(store.port_links(h), o1[0])
+    except Exception as e:  # noqa: BLE001
+        return [exc_fail("linked_ports", e)]
     try:
         j1 = h.to_json()
     except Exception as e:  # noqa: BLE001
@@ -91,6 +100,14 @@ def roundtrip_fails(h) -> list[Fail]:
         only_w = [x for x in wa if x not in ga]
         what = "order-links" if only_w and all(x[1] == -1 for x in only_w) else "links"
         f.append(Fail("obs", what, f"loaded={ga[:8]} original(renamed)={wa[:8]}"[:400]))
+    # the same through the per-port queries: what linked_ports answered before is what it answers after
+    try:
+        pl2 = store.port_links(h2)
+    except Exception as e:  # noqa: BLE001
+        return f + [exc_fail("linked_ports-after", e)]
+    if pl2 != pl1 and got[1] == want[1]:
+        ga, wa = sorted(pl2.elements()), sorted(pl1.elements())
+        f.append(Fail("obs", "links-by-port", f"loaded-only={[x for x in ga if x not in wa][:4]} original-only(renamed)={[x for x in wa if x not in ga][:4]}"[:400]))
     return f[:8]
 
 
